@@ -2,6 +2,7 @@ package main
 
 import (
 	"fmt"
+	"sort"
 
 	"github.com/go-gts/gts"
 )
@@ -227,6 +228,43 @@ func propC02(r *Run) {
 					break
 				}
 			}
+			// every host feature denotes its re-mapped residues, every guest feature its residues offset by i
+			gn := len(guest.Bytes())
+			strip := func(d []pos) []pos { return d }
+			if opn == "seq.embed" {
+				strip = func(d []pos) []pos {
+					var out []pos
+					for _, p := range d {
+						if p.x < i || p.x >= i+gn {
+							out = append(out, p)
+						}
+					}
+					return out
+				}
+			}
+			wantF := map[string]int{}
+			for _, f := range host.Features() {
+				if d := den(f.Loc); lawApplies(f.Loc, d) {
+					wantF["h|"+featKey(f)+denStr(mapDen(d, insMap(i, gn)))]++
+				}
+			}
+			for _, f := range guest.Features() {
+				if d := den(f.Loc); lawApplies(f.Loc, d) {
+					wantF["g|"+featKey(f)+denStr(mapDen(d, func(x int) (int, bool) { return x + i, true }))]++
+				}
+			}
+			for _, f := range res.Features() {
+				d := den(f.Loc)
+				wantF["h|"+featKey(f)+denStr(strip(d))]--
+				wantF["g|"+featKey(f)+denStr(d)]--
+			}
+			for k, v := range wantF {
+				if v > 0 {
+					r.fail(Failure{Oracle: opn + ": every feature denotes the residues it denoted before (host re-mapped, guest offset)", Op: line,
+						Got: fmt.Sprintf("%s missing %d", k, v)})
+					break
+				}
+			}
 		}
 		if k < 3 {
 			r.sample(fmt.Sprintf("seq.insert %s %d %s", encSeq(host), i, encSeq(guest)))
@@ -413,6 +451,30 @@ func propC03(r *Run) {
 				r.fail(Failure{Oracle: "delete: every feature survives", Op: line,
 					Got: fmt.Sprintf("%d features", len(res.Features()))})
 			}
+			wantF := map[string]int{}
+			for _, f := range s.Features() {
+				if opn == "seq.erase" && f.Key != "source" && gts.LocationWithin(f.Loc, i, i+k) {
+					continue
+				}
+				if d := den(f.Loc); lawApplies(f.Loc, d) {
+					if w := mapDen(d, delMap(i, k)); len(w) > 0 {
+						wantF[featKey(f)+denStr(w)]++
+					}
+				}
+			}
+			for _, f := range res.Features() {
+				wantF[featKey(f)+denStr(den(f.Loc))]--
+				if !coordsWithin(f.Loc, LL-k) {
+					r.fail(Failure{Oracle: opn + ": coordinates stay inside the new sequence", Op: line, Got: encLoc(f.Loc)})
+				}
+			}
+			for kk, v := range wantF {
+				if v > 0 {
+					r.fail(Failure{Oracle: opn + ": every surviving feature denotes its former residues minus the removed ones", Op: line,
+						Got: fmt.Sprintf("%s missing %d", kk, v)})
+					break
+				}
+			}
 		}
 		// Slice: forward, wrap-around, negative
 		a := r.rng.rangeInt(-LL, LL)
@@ -461,28 +523,38 @@ func propC03(r *Run) {
 		}
 		// the surviving features are those with at least one residue (or site) overlapping; compare multisets of re-mapped denotations for features that keep a residue
 		wantD := map[string]int{}
+		wrap := bb < aa
 		for _, f := range s.Features() {
-			d := mapDen(den(f.Loc), winMap)
-			if len(d) > 0 && nodup(den(f.Loc)) && bb >= aa {
+			d0 := den(f.Loc)
+			d := mapDen(d0, winMap)
+			if wrap {
+				// the window wraps around the origin: Slice rotates first; full-length and
+				// K2-shaped features have their own clauses under C04
+				if len(d) > 0 && lawApplies(f.Loc, d0) && len(d0) < LL {
+					wantD[featKey(f)+denStr(d)]++
+				}
+			} else if len(d) > 0 && nodup(d0) {
 				wantD[featKey(f)+denStr(d)]++
 			}
 		}
-		if bb >= aa {
-			for _, f := range res.Features() {
-				d := den(f.Loc)
-				if len(d) > 0 {
-					wantD[featKey(f)+denStr(d)]--
-				}
-				if !coordsWithin(f.Loc, len(want)) {
-					r.fail(Failure{Oracle: "slice: coordinates stay inside the window", Op: line, Got: encLoc(f.Loc)})
-				}
+		for _, f := range res.Features() {
+			d := den(f.Loc)
+			if len(d) > 0 {
+				wantD[featKey(f)+denStr(d)]--
 			}
-			for k, v := range wantD {
-				if v > 0 {
-					r.fail(Failure{Oracle: "slice: every feature with residues in the window survives with exactly those residues", Op: line,
-						Got: fmt.Sprintf("%s missing %d", k, v), Guard: sliceGuards(s, aa, bb)})
-					break
+			if !coordsWithin(f.Loc, len(want)) {
+				r.fail(Failure{Oracle: "slice: coordinates stay inside the window", Op: line, Got: encLoc(f.Loc)})
+			}
+		}
+		for k, v := range wantD {
+			if v > 0 {
+				g := ""
+				if !wrap {
+					g = sliceGuards(s, aa, bb)
 				}
+				r.fail(Failure{Oracle: "slice: every feature with residues in the window survives with exactly those residues", Op: line,
+					Got: fmt.Sprintf("%s missing %d", k, v), Guard: g})
+				break
 			}
 		}
 	}
@@ -584,6 +656,15 @@ func propC04(r *Run) {
 	for t := 0; t < nRandom/10; t++ {
 		LL := r.rng.rangeInt(1, 13)
 		s := genSeq(r.rng, LL, 4, 2)
+		if t%4 == 0 && LL >= 2 {
+			ff := gts.FeatureSlice(nil)
+			for _, f := range s.Features() {
+				ff = ff.Insert(f)
+			}
+			ff = ff.Insert(gts.Feature{Key: "misc_feature", Loc: fullCover(r.rng, LL), Props: gts.Props{}})
+			s = gts.New(nil, ff, s.Bytes())
+			r.count("seq.rotate/with-full-cover-feature")
+		}
 		a := r.rng.rangeInt(-3*LL, 3*LL)
 		b := r.rng.rangeInt(-3*LL, 3*LL)
 		line := fmt.Sprintf("seq.rotate %s %d", encSeq(s), a)
@@ -829,6 +910,119 @@ func propC05(r *Run) {
 		if len(res.Features()) != len(s.Features()) {
 			r.fail(Failure{Oracle: "seq.reverse: no feature lost", Op: line, Got: itoa(len(res.Features()))})
 		}
+		want := map[string]int{}
+		for _, f := range s.Features() {
+			if d := den(f.Loc); lawApplies(f.Loc, d) && !hasBetween(f.Loc) {
+				w := make([]pos, len(d))
+				for k2, p := range d {
+					w[len(d)-1-k2] = pos{LL - 1 - p.x, p.rev}
+				}
+				if gts.CheckStrand(f.Loc) != gts.StrandBoth && !hasNestedCompl(f.Loc) {
+					want[featKey(f)+denStr(w)]++
+				}
+			}
+		}
+		for _, f := range res.Features() {
+			want[featKey(f)+denStr(den(f.Loc))]--
+		}
+		for kk, v := range want {
+			if v > 0 {
+				r.fail(Failure{Oracle: "seq.reverse: every feature denotes the mirrored residues in mirrored order", Op: line,
+					Got: fmt.Sprintf("%s missing %d", kk, v)})
+				break
+			}
+		}
+	}
+	// gts.Complement and gts.Reverse(gts.Complement(.)) on records: every feature, whatever the
+	// kind of its top-level location, moves to the other strand and still extracts its residues
+	for t := 0; t < nRandom/10; t++ {
+		LL := r.rng.rangeInt(1, 13)
+		s := genSeq(r.rng, LL, 4, 2)
+		if t%3 == 0 { // make sure every top-level kind is seen often
+			ff := gts.FeatureSlice(nil)
+			for _, f := range s.Features() {
+				ff = ff.Insert(f)
+			}
+			a := r.rng.intn(LL)
+			tops := []gts.Location{gts.Ambiguous{a, a + 1 + r.rng.intn(LL-a)}, gts.Point(a), gts.Between(a),
+				gts.Complemented{Location: gts.Ambiguous{a, a + 1 + r.rng.intn(LL-a)}}, gts.Range(a, a+1+r.rng.intn(LL-a))}
+			ff = ff.Insert(gts.Feature{Key: "misc_feature", Loc: tops[r.rng.intn(len(tops))], Props: gts.Props{}})
+			s = gts.New(nil, ff, s.Bytes())
+		}
+		line := "seq.complement " + encSeq(s)
+		out := r.op(line)
+		r.count("seq.complement")
+		if out == "PANIC" {
+			r.fail(Failure{Oracle: "seq.complement: no panic", Op: line, Got: out})
+			continue
+		}
+		r.eval(line, len(s.Features()) > 0)
+		cs := gts.Complement(copySeq(s))
+		if len(cs.Features()) != len(s.Features()) {
+			r.fail(Failure{Oracle: "seq.complement: no feature lost", Op: line, Got: itoa(len(cs.Features()))})
+			continue
+		}
+		for k, f := range s.Features() {
+			g := cs.Features()[k]
+			r.count("seq.complement/top/" + kindOf(f.Loc))
+			d := den(f.Loc)
+			w := make([]pos, len(d))
+			for k2, p := range d {
+				w[len(d)-1-k2] = pos{p.x, !p.rev}
+			}
+			if featKey(f) != featKey(g) || !sameMeaning(den(g.Loc), w) {
+				r.fail(Failure{Oracle: "seq.complement: every feature keeps its key and qualifiers and denotes the same residues on the other strand", Op: line,
+					Got: encFeature(g), Want: featKey(f) + denStr(w)})
+				break
+			}
+		}
+		// involution at record level
+		isCC := false
+		for _, f := range s.Features() {
+			if c1, ok := f.Loc.(gts.Complemented); ok {
+				if _, cc := c1.Location.(gts.Complemented); cc {
+					isCC = true
+				}
+			}
+		}
+		back := gts.Complement(gts.Complement(copySeq(s)))
+		if !isCC {
+			for k, f := range s.Features() {
+				if !locEq(back.Features()[k].Loc, f.Loc) {
+					r.fail(Failure{Oracle: "seq.complement: involution on every feature location", Op: line,
+						Got: encLoc(back.Features()[k].Loc), Want: encLoc(f.Loc)})
+					break
+				}
+			}
+		}
+		// reverse-complemented record: same extraction for every feature
+		line2 := "seq.revcomp " + encSeq(s)
+		out2 := r.op(line2)
+		r.count("seq.revcomp")
+		if out2 == "PANIC" {
+			r.fail(Failure{Oracle: "seq.revcomp: no panic", Op: line2, Got: out2})
+			continue
+		}
+		rc := gts.Reverse(gts.Complement(copySeq(s)))
+		wantX := map[string]int{}
+		for _, f := range s.Features() {
+			d := den(f.Loc)
+			if len(d) > 0 && nodup(d) && !touchesK2(f.Loc) && !hasBetween(f.Loc) && coordsWithin(f.Loc, LL) {
+				wantX[featKey(f)+"|"+string(f.Loc.Region().Locate(s).Bytes())]++
+			}
+		}
+		for _, f := range rc.Features() {
+			if coordsWithin(f.Loc, LL) {
+				wantX[featKey(f)+"|"+string(f.Loc.Region().Locate(rc).Bytes())]--
+			}
+		}
+		for kk, v := range wantX {
+			if v > 0 {
+				r.fail(Failure{Oracle: "seq.revcomp: the sequence extracted for every feature from the reverse-complemented record equals the one extracted from the original", Op: line2,
+					Got: fmt.Sprintf("%q missing %d", kk, v)})
+				break
+			}
+		}
 	}
 }
 
@@ -899,6 +1093,91 @@ func propC10(r *Run) {
 		c10Loc(r, l, i, r.rng.rangeInt(1, 4))
 		if t < 4 {
 			r.sample(fmt.Sprintf("insert;delete %s at %d", encLoc(l), i))
+		}
+	}
+	// the two-step programs on whole records: insert;delete and embed;delete at every kind of
+	// insertion point (0, Len(host), feature edges), hosts with a source feature over everything
+	for t := 0; t < nRandom/10; t++ {
+		LL := r.rng.rangeInt(1, 13)
+		host := genSeq(r.rng, LL, 4, 2)
+		if t%2 == 0 {
+			ff := gts.FeatureSlice(nil)
+			for _, f := range host.Features() {
+				ff = ff.Insert(f)
+			}
+			ff = ff.Insert(gts.Feature{Key: "source", Loc: gts.Range(0, LL), Props: gts.Props{}})
+			if t%4 == 0 {
+				a := r.rng.intn(LL)
+				ff = ff.Insert(gts.Feature{Key: "gene", Loc: gts.Range(a, LL), Props: gts.Props{}})
+				ff = ff.Insert(gts.Feature{Key: "CDS", Loc: gts.Range(0, a+1), Props: gts.Props{}})
+			}
+			host = gts.New(nil, ff, host.Bytes())
+		}
+		gn := r.rng.rangeInt(1, 4)
+		guest := genSeq(r.rng, gn, 2, 1)
+		cands := []int{0, LL, r.rng.intn(LL + 1)}
+		for _, f := range host.Features() {
+			for _, u := range leaves(f.Loc) {
+				a, b := spanOf(u)
+				cands = append(cands, a, b)
+			}
+		}
+		i := cands[r.rng.intn(len(cands))]
+		if i < 0 || i > LL {
+			i = r.rng.intn(LL + 1)
+		}
+		for _, first := range []string{"insert", "embed"} {
+			l1 := fmt.Sprintf("seq.%s %s %d %s", first, encSeq(host), i, encSeq(guest))
+			if r.op(l1) == "PANIC" {
+				r.fail(Failure{Oracle: first + ";delete: no panic", Op: l1, Got: "PANIC"})
+				continue
+			}
+			var mid gts.Sequence
+			if first == "insert" {
+				mid = gts.Insert(copySeq(host), i, copySeq(guest))
+			} else {
+				mid = gts.Embed(copySeq(host), i, copySeq(guest))
+			}
+			l2 := fmt.Sprintf("seq.delete %s %d %d", encSeq(mid), i, gn)
+			full := l1 + " ; " + l2
+			r.count("seq." + first + ";delete")
+			switch {
+			case i == 0:
+				r.count("seq." + first + ";delete/at-start")
+			case i == LL:
+				r.count("seq." + first + ";delete/at-end")
+			}
+			if r.op(l2) == "PANIC" {
+				r.fail(Failure{Oracle: first + ";delete: no panic", Op: full, Got: "PANIC"})
+				continue
+			}
+			back := gts.Delete(copySeq(mid), i, gn)
+			r.eval(full, len(host.Features()) > 0)
+			if string(back.Bytes()) != string(host.Bytes()) {
+				r.fail(Failure{Oracle: first + ";delete restores the host's residues", Op: full,
+					Got: encBytes(back.Bytes()), Want: encBytes(host.Bytes())})
+				continue
+			}
+			have := map[string]int{}
+			mk := func(f gts.Feature) string {
+				lo, hi := outerMarks(f.Loc)
+				return fmt.Sprintf("%s%s|%v%v", featKey(f), denStr(den(f.Loc)), lo, hi)
+			}
+			for _, f := range back.Features() {
+				have[mk(f)]++
+			}
+			for _, f := range host.Features() {
+				if d := den(f.Loc); !lawApplies(f.Loc, d) {
+					continue
+				}
+				k := mk(f)
+				if have[k] == 0 {
+					r.fail(Failure{Oracle: first + ";delete gives every host feature a location denoting the same residues with the same partial markers", Op: full,
+						Got: "no feature " + k + " after the round trip (original " + encLoc(f.Loc) + ")"})
+					break
+				}
+				have[k]--
+			}
 		}
 	}
 	// split at cut points and concatenate
@@ -1024,28 +1303,80 @@ func cutGuards(s gts.Sequence, pts []int) string {
 // residues or a K2 shape are skipped (they have their own clauses at location level).
 func c04Feats(r *Run, line string, before, after gts.Sequence, n, L int) {
 	m := ((n % L) + L) % L
-	want := map[string]int{}
-	for _, f := range before.Features() {
-		d := den(f.Loc)
-		if len(d) == 0 || !nodup(d) || hasAmbiguous(f.Loc) || len(d) >= L || touchesK2(f.Loc) {
-			continue
-		}
-		want[featKey(f)+denStr(mapDen(d, rotMap(m, L)))]++
-	}
+	have := map[string]int{}
 	for _, f := range after.Features() {
 		if !coordsWithin(f.Loc, L) {
 			r.fail(Failure{Oracle: "rotate: all coordinates lie in [0,L]", Op: line, Got: encLoc(f.Loc)})
 			return
 		}
-		want[featKey(f)+denStr(den(f.Loc))]--
-	}
-	for k, v := range want {
-		if v > 0 {
-			r.fail(Failure{Oracle: "rotate: every feature denotes the same residues at (x+n) mod L", Op: line,
-				Got: fmt.Sprintf("%s missing %d", k, v)})
-			return
+		have[featKey(f)+denStr(den(f.Loc))]++
+		// the only part with residues is the whole range 1..L (zero-length sites may hang on)
+		nres, whole := 0, false
+		for _, u := range leaves(f.Loc) {
+			if u.Len() > 0 {
+				nres++
+				if rg, ok := u.(gts.Ranged); ok && rg.Start == 0 && rg.End == L {
+					whole = true
+				}
+			}
+		}
+		if whole && nres == 1 {
+			have[featKey(f)+"|whole"]++
 		}
 	}
+	for _, f := range before.Features() {
+		d := den(f.Loc)
+		if len(d) == 0 || !nodup(d) || hasAmbiguous(f.Loc) || len(d) > L || touchesK2(f.Loc) {
+			continue
+		}
+		k1 := featKey(f) + denStr(mapDen(d, rotMap(m, L)))
+		if have[k1] > 0 {
+			have[k1]--
+			continue
+		}
+		// a feature covering every residue may come out as the whole range 1..L ("a full-length
+		// feature stays full-length"), whatever residue it started reading from
+		if k2 := featKey(f) + "|whole"; len(d) == L && have[k2] > 0 {
+			have[k2]--
+			continue
+		}
+		r.fail(Failure{Oracle: "rotate: every feature denotes the same residues at (x+n) mod L", Op: line,
+			Got: fmt.Sprintf("%s missing", k1)})
+		return
+	}
+}
+
+// fullCover: a multi-part location whose parts are consecutive stretches covering every residue
+// of a sequence of length L exactly once, read from a random stretch onwards.
+func fullCover(g *rng, L int) gts.Location {
+	k := 2 + g.intn(2)
+	if k > L {
+		k = L
+	}
+	cuts := map[int]bool{0: true}
+	for len(cuts) < k {
+		cuts[g.intn(L)] = true
+	}
+	var cs []int
+	for c := range cuts {
+		cs = append(cs, c)
+	}
+	sort.Ints(cs)
+	cs = append(cs, L)
+	parts := make([]gts.Location, 0, k)
+	st := g.intn(k)
+	for j := 0; j < k; j++ {
+		q := (st + j) % k
+		parts = append(parts, gts.Range(cs[q], cs[q+1]))
+	}
+	var l gts.Location = gts.Joined(parts)
+	if g.intn(3) == 0 {
+		l = gts.Ordered(parts)
+	}
+	if g.intn(2) == 0 {
+		l = gts.Complemented{Location: l}
+	}
+	return l
 }
 
 // touchesK2: some join in l has a Ranged directly or indirectly followed by a Point
@@ -1063,4 +1394,11 @@ func containsKind(l gts.Location) bool {
 		}
 	}
 	return hasR && hasP
+}
+
+// lawApplies: the per-feature denotation law is checked at sequence level for features with a
+// duplicate-free, non-empty denotation, no ambiguous leaf and no shape on which known finding
+// K2 can fire (those have their own clauses at location level).
+func lawApplies(l gts.Location, d []pos) bool {
+	return len(d) > 0 && nodup(d) && !hasAmbiguous(l) && !touchesK2(l)
 }
